@@ -192,6 +192,8 @@ type Server struct {
 	OnText func(sc *SrvConn, raw []byte)
 	// JID the server assigns on bind.
 	BoundJid string
+	// BoundPerConn: every bind gets a resource of its own (as servers do when the client asks for none)
+	BoundPerConn bool
 	// Component mode: expect <handshake/> after the header.
 	Component   bool
 	HandshakeOK func(sc *SrvConn, digest string) string // returns reply (raw XML) or "" for close
@@ -330,6 +332,13 @@ func (sc *SrvConn) CloseGracefully() {
 	sc.Send("</stream:stream>")
 	sc.e.Yield("srv.closing")
 	sc.Close()
+}
+
+func (sc *SrvConn) boundJid() string {
+	if sc.S.BoundPerConn {
+		return fmt.Sprintf("%s-%d", sc.S.BoundJid, sc.Idx)
+	}
+	return sc.S.BoundJid
 }
 
 func (sc *SrvConn) delay() {
@@ -690,9 +699,9 @@ func (sc *SrvConn) handle(it *Item) {
 		switch scr.Bind {
 		case BindOK:
 			if scr.Prefixed {
-				sc.Send(fmt.Sprintf("<iq id='%s' type='result'><b:bind xmlns:b='%s'><b:jid>%s</b:jid></b:bind></iq>", id, nsBind, xmlEscape(sc.S.BoundJid)))
+				sc.Send(fmt.Sprintf("<iq id='%s' type='result'><b:bind xmlns:b='%s'><b:jid>%s</b:jid></b:bind></iq>", id, nsBind, xmlEscape(sc.boundJid())))
 			} else {
-				sc.Send(fmt.Sprintf("<iq type='result' id='%s'><bind xmlns='%s'><jid>%s</jid></bind></iq>", id, nsBind, xmlEscape(sc.S.BoundJid)))
+				sc.Send(fmt.Sprintf("<iq type='result' id='%s'><bind xmlns='%s'><jid>%s</jid></bind></iq>", id, nsBind, xmlEscape(sc.boundJid())))
 			}
 			sc.establish("bound")
 		case BindError:
@@ -708,18 +717,18 @@ func (sc *SrvConn) handle(it *Item) {
 		case BindStreamEnd:
 			sc.Send("</stream:stream>")
 		case BindInMessage:
-			sc.Send(fmt.Sprintf("<message type='result' id='%s'><bind xmlns='%s'><jid>%s</jid></bind></message>", id, nsBind, xmlEscape(sc.S.BoundJid)))
+			sc.Send(fmt.Sprintf("<message type='result' id='%s'><bind xmlns='%s'><jid>%s</jid></bind></message>", id, nsBind, xmlEscape(sc.boundJid())))
 		case BindForeignID:
-			sc.Send(fmt.Sprintf("<iq type='result' id='not-%s'><bind xmlns='%s'><jid>%s</jid></bind></iq>", id, nsBind, xmlEscape(sc.S.BoundJid)))
+			sc.Send(fmt.Sprintf("<iq type='result' id='not-%s'><bind xmlns='%s'><jid>%s</jid></bind></iq>", id, nsBind, xmlEscape(sc.boundJid())))
 		case BindNoJid:
 			sc.Send(fmt.Sprintf("<iq type='result' id='%s'><bind xmlns='%s'/></iq>", id, nsBind))
 		case BindForeignNS:
-			sc.Send(fmt.Sprintf("<iq xmlns='urn:example:not-xmpp' type='result' id='%s'><bind xmlns='%s'><jid>%s</jid></bind></iq>", id, nsBind, xmlEscape(sc.S.BoundJid)))
+			sc.Send(fmt.Sprintf("<iq xmlns='urn:example:not-xmpp' type='result' id='%s'><bind xmlns='%s'><jid>%s</jid></bind></iq>", id, nsBind, xmlEscape(sc.boundJid())))
 		case BindSloppy:
 			if sc.Idx%2 == 0 {
-				sc.Send(fmt.Sprintf("<iq type='result' id='%s'><bind xmlns='%s'><jid>%s</jid><note>a&nbsp;b</note></bind></iq>", id, nsBind, xmlEscape(sc.S.BoundJid)))
+				sc.Send(fmt.Sprintf("<iq type='result' id='%s'><bind xmlns='%s'><jid>%s</jid><note>a&nbsp;b</note></bind></iq>", id, nsBind, xmlEscape(sc.boundJid())))
 			} else {
-				sc.Send(fmt.Sprintf("<iq type=result id='%s'><bind xmlns='%s'><jid>%s</jid></bind></iq>", id, nsBind, xmlEscape(sc.S.BoundJid)))
+				sc.Send(fmt.Sprintf("<iq type=result id='%s'><bind xmlns='%s'><jid>%s</jid></bind></iq>", id, nsBind, xmlEscape(sc.boundJid())))
 			}
 		}
 	case el.Local == "iq" && el.Child(nsSession, "session") != nil:
